@@ -10,6 +10,14 @@ Tie      generated forests are built as REAL insights.parsr.query.Entry trees (p
          every (deep, roots) combination.  The identities of the returned nodes are compared with
          IV.Query (Drivers/C20.lean).  Boolean expressions: b.test(v) and b.to_pyfunc()(v) against
          BExp.interp / BExp.compiled, and the harness's reference evaluation against evalC / nonRaising.
+Values   operation HISTORIES with shared sub-expressions (exec_prog / gen_history, driver request `prog`): a
+         combination b nested to depth >= 3 is built and compiled, then used — the same object — as left and right
+         operand of & and |, in chains ((b & c) & d, continued from derived objects), under ~, inside
+         any_/all_/child_query and entry-query & | ~, and inside select/find/[]/where queries; after every later
+         binding b is evaluated again interpreted, by the function compiled when it was built and by one compiled
+         now, and run in queries again (roots True/False).  Everything must equal the reference of b AS BUILT (model:
+         letB / binding_is_value), each derived combination the reference of its own tree, and the operand objects'
+         structure (classes, operand identities) must be unchanged.
 Oracle   an independent evaluator over the plain description of the tree: a node is expected iff its
          ancestor chain satisfies the levels bottom-up; expected list = those nodes in document
          (pre-)order; roots = first-occurrence de-duplication of the ultimate ancestors of the returned
@@ -90,6 +98,8 @@ def tok_bexp(b):
         return [k] + tok_bexp(b[1]) + tok_bexp(b[2])
     if k == "not":
         return ["not"] + tok_bexp(b[1])
+    if k == "ref":
+        return ["ref", str(b[1])]
     raise ValueError(b)
 
 
@@ -116,6 +126,8 @@ def tok_eq(e):
         return [k] + tok_eq(e[1]) + tok_eq(e[2])
     if k == "enot":
         return ["enot"] + tok_eq(e[1])
+    if k == "eref":
+        return ["eref", str(e[1])]
     raise ValueError(e)
 
 
@@ -149,6 +161,8 @@ def tok_step(s):
         for q in s[3]:
             out += tok_query(q)
         return out
+    if s[0] == "W":
+        return ["W"] + tok_eq(s[1])
     return ["G"] + tok_query(s[1])
 
 
@@ -168,8 +182,9 @@ def bool_line(case):
 
 # --------------------------------------------------------------------------- real objects
 
-def real_bexp(b, nary=False):
-    """nary: chains of the same connective are built with the n-ary constructors All(a, b, c) / Any(a, b, c)
+def real_bexp(b, nary=False, env=None):
+    """env: the real objects built so far by a program (["ref", i] / ["eref", i] are THOSE objects, shared);
+    nary: chains of the same connective are built with the n-ary constructors All(a, b, c) / Any(a, b, c)
     (left-nested chains only, which evaluate their operands in the same order as the nested binary form)"""
     k = b[0]
     if nary and k in ("and", "or"):
@@ -179,9 +194,11 @@ def real_bexp(b, nary=False):
             cur = cur[1]
         ops.append(cur)
         ops.reverse()
-        return (B.All if k == "and" else B.Any)(*[real_bexp(x, True) for x in ops])
+        return (B.All if k == "and" else B.Any)(*[real_bexp(x, True, env) for x in ops])
     if nary and k == "not":
-        return B.Not(real_bexp(b[1], True))
+        return B.Not(real_bexp(b[1], True, env))
+    if k == "ref":
+        return env["B"][b[1]]
     if k == "tt":
         return B.TRUE
     if k == "ff":
@@ -195,55 +212,68 @@ def real_bexp(b, nary=False):
     if k == "o":
         return B.pred(opq(b[1]), ignore_case=bool(b[2]))
     if k == "and":
-        return real_bexp(b[1]) & real_bexp(b[2])
+        return real_bexp(b[1], False, env) & real_bexp(b[2], False, env)
     if k == "or":
-        return real_bexp(b[1]) | real_bexp(b[2])
+        return real_bexp(b[1], False, env) | real_bexp(b[2], False, env)
     if k == "not":
-        return ~real_bexp(b[1])
+        return ~real_bexp(b[1], False, env)
     raise ValueError(b)
 
 
-def real_nq(n):
+def real_nq(n, env=None):
     k = n[0]
     if k == "any":
         return None
     if k == "lit":
         return n[1]
     if k == "b":
-        return real_bexp(n[1])
+        return real_bexp(n[1], False, env)
     if k == "f":
         return opq(n[1])
     raise ValueError(n)
 
 
-def real_eq(e):
+def real_eq(e, env=None):
     k = e[0]
     if k == "anyA":
-        return Q.any_(real_nq(e[1]))
+        return Q.any_(real_nq(e[1], env))
     if k == "allA":
-        return Q.all_(real_nq(e[1]))
+        return Q.all_(real_nq(e[1], env))
     if k == "child":
-        return Q.child_query(real_nq(e[1])) if e[2] is None else Q.child_query(real_nq(e[1]), real_nq(e[2]))
+        return Q.child_query(real_nq(e[1], env)) if e[2] is None else Q.child_query(real_nq(e[1], env), real_nq(e[2], env))
     if k == "eand":
-        return real_eq(e[1]) & real_eq(e[2])
+        return real_eq(e[1], env) & real_eq(e[2], env)
     if k == "eor":
-        return real_eq(e[1]) | real_eq(e[2])
+        return real_eq(e[1], env) | real_eq(e[2], env)
     if k == "enot":
-        return ~real_eq(e[1])
+        return ~real_eq(e[1], env)
+    if k == "eref":
+        return env["E"][e[1]]
     raise ValueError(e)
 
 
-def real_query(q):
+def real_query(q, env=None):
     k = q[0]
     if k == "qn":
-        return real_nq(q[1])
+        return real_nq(q[1], env)
     if k == "qt":
-        return tuple([real_nq(q[1])] + [real_nq(a) for a in q[2]])
+        return tuple([real_nq(q[1], env)] + [real_nq(a, env) for a in q[2]])
     if k == "qte":
-        return (real_nq(q[1]), real_eq(q[2]))
+        return (real_nq(q[1], env), real_eq(q[2], env))
     if k == "qe":
-        return real_eq(q[1])
+        return real_eq(q[1], env)
     raise ValueError(q)
+
+
+def real_where(cur, s, env=None):
+    """cur.where(entry_query), or the (name, value) form for a child query whose name is not a bare callable
+    (where(callable) calls it on the ENTRY, a different feature)"""
+    e = s[1]
+    if len(s) > 2 and s[2] == "nv" and e[0] == "child" and e[1][0] != "f":
+        if e[2] is None:
+            return cur.where(real_nq(e[1], env))
+        return cur.where(real_nq(e[1], env), real_nq(e[2], env))
+    return cur.where(real_eq(e, env))
 
 
 def build_entries(docs):
@@ -285,7 +315,7 @@ def show_ids(xs, ident):
     return ",".join(out) if out else "-"
 
 
-def run_impl(case, tops=None, ident=None, conf=None):
+def run_impl(case, tops=None, ident=None, conf=None, env=None):
     """run the steps on the real objects; returns (canonical answer, result of the same last step without roots)"""
     if tops is None:
         tops, ident, _keep = build_entries(case["docs"])
@@ -306,7 +336,7 @@ def run_impl(case, tops=None, ident=None, conf=None):
         for j, s in enumerate(case["steps"]):
             last = j == n - 1
             if s[0] == "S":
-                qs = [real_query(q) for q in s[3]]
+                qs = [real_query(q, env) for q in s[3]]
                 deep, roots = bool(s[1]), bool(s[2])
 
                 def go(ro, cur=cur, qs=qs, deep=deep):
@@ -318,8 +348,10 @@ def run_impl(case, tops=None, ident=None, conf=None):
                 if last and roots:
                     plain = items(go(False))
                 nxt = go(roots)
+            elif s[0] == "W":
+                nxt = real_where(cur, s, env)
             else:
-                nxt = cur[real_query(s[1])]
+                nxt = cur[real_query(s[1], env)]
             cur = nxt
         return show_ids(items(cur), ident), plain
     except IndexError:
@@ -519,6 +551,12 @@ def oracle_select(chk, case, impl, plain_ids):
         if s[0] == "G":
             exp = [i for i in doc.below(nodes) if i in set(nodes) and ref_query(s[1], doc.by_id[i])]
             deep, roots, qs = False, False, [s[1]]
+        elif s[0] == "W":           # where: the entry's children if the entry satisfies it / the result's own children that do
+            if kind == "entry":
+                exp = [c["id"] for c in doc.by_id[cur[0]]["children"]] if ref_eq(s[1], doc.by_id[cur[0]]) else []
+            else:
+                exp = [i for i in cur if ref_eq(s[1], doc.by_id[i])]
+            deep, roots, qs = False, False, []
         else:
             deep, roots, qs = bool(s[1]), bool(s[2]), s[3]
             if not qs:
@@ -710,10 +748,18 @@ def gen_sel_case(rng, max_nodes):
         if q[0] == "qn" and q[1][0] == "lit" and isinstance(q[1][1], int):
             q = ["qt", q[1], []]          # conf[5] is positional indexing; conf[(5,)] is the query
         return ["G", q]
+
+    def where_step():
+        return ["W", gen_eq(rng, names, rng.choice([0, 1, 2])), rng.choice(["obj", "nv"])]
     steps = []
     if start != "fn" and rng.random() < 0.3:
-        steps.append(get_step() if rng.random() < 0.5 else sel_step(False))
-    steps.append(get_step() if (rng.random() < 0.15 and (steps or start != "fn")) else sel_step(True))
+        k = rng.random()
+        steps.append(get_step() if k < 0.4 else sel_step(False) if k < 0.8 else where_step())
+    k = rng.random()
+    if steps or start != "fn":
+        steps.append(get_step() if k < 0.15 else where_step() if k < 0.27 else sel_step(True))
+    else:
+        steps.append(sel_step(True))
     return {"start": start, "docs": docs, "steps": steps, "via_find": rng.random() < 0.5}
 
 
@@ -755,6 +801,388 @@ def describe(entry, ident, nid):
         if not (a is None or (isinstance(a, int) and not isinstance(a, bool)) or isinstance(a, str)):
             raise ValueError("value outside the model: %r" % (a,))
     return {"id": i, "name": name, "attrs": attrs, "children": [describe(c, ident, nid) for c in entry.children]}
+
+
+# --------------------------------------------------------------------------- histories: combinations are values
+#
+# A program builds combinations one after the other from REAL objects; later combinations use earlier ones
+# (the same Python objects) as left / right operands of & and |, under ~, in chains, inside any_/all_/child_query
+# and inside queries.  Statements:
+#   ["LB", term, nary]       x_n = a Boolean; operands may be ["ref", i]
+#   ["LE", eterm]            e_n = an entry query; operands may be ["eref", i] (and ["b", ["ref", i]] attribute queries)
+#   ["TB", i, values]        truth table of x_i: test(v), the function compiled when x_i was built, one compiled now
+#   ["TE", i, node ids]      truth table of e_i on nodes: test(n), compiled-then, compiled-now
+#   ["Q", start, steps, via_find]   a select / find / [] / where pipeline whose queries may use the bindings
+# Every TB / TE / Q is repeated after later bindings were made; the model answers from the term as written.
+
+def expand_b(t, envd):
+    k = t[0]
+    if k == "ref":
+        return envd["B"][t[1]]
+    if k in ("and", "or"):
+        return [k, expand_b(t[1], envd), expand_b(t[2], envd)]
+    if k == "not":
+        return ["not", expand_b(t[1], envd)]
+    return t
+
+
+def expand_nq(n, envd):
+    return ["b", expand_b(n[1], envd)] if n is not None and n[0] == "b" else n
+
+
+def expand_eq(e, envd):
+    k = e[0]
+    if k == "eref":
+        return envd["E"][e[1]]
+    if k in ("anyA", "allA"):
+        return [k, expand_nq(e[1], envd)]
+    if k == "child":
+        return ["child", expand_nq(e[1], envd), expand_nq(e[2], envd)]
+    if k in ("eand", "eor"):
+        return [k, expand_eq(e[1], envd), expand_eq(e[2], envd)]
+    return ["enot", expand_eq(e[1], envd)]
+
+
+def expand_query(q, envd):
+    k = q[0]
+    if k == "qn":
+        return ["qn", expand_nq(q[1], envd)]
+    if k == "qt":
+        return ["qt", expand_nq(q[1], envd), [expand_nq(a, envd) for a in q[2]]]
+    if k == "qte":
+        return ["qte", expand_nq(q[1], envd), expand_eq(q[2], envd)]
+    return ["qe", expand_eq(q[1], envd)]
+
+
+def expand_step(s, envd):
+    if s[0] == "S":
+        return ["S", s[1], s[2], [expand_query(q, envd) for q in s[3]]]
+    if s[0] == "W":
+        return ["W", expand_eq(s[1], envd)] + list(s[2:])
+    return ["G", expand_query(s[1], envd)]
+
+
+def snap(o):
+    """structure of a combination: classes, operand identities, operand structures"""
+    t = type(o).__name__
+    ex = getattr(o, "exprs", None)
+    if isinstance(ex, (list, tuple)):
+        return (t, "exprs", tuple((id(x), snap(x)) for x in ex))
+    q = getattr(o, "query", None)
+    if isinstance(o, B.Not) and q is not None:
+        return (t, "query", id(q), snap(q))
+    if isinstance(o, B.Predicate):
+        return (t, id(o.func), repr(o.args))
+    if hasattr(o, "expr"):
+        return (t, id(o.expr))
+    return (t, id(o))
+
+
+def interp_ref(b, v):
+    """Boolean.test as documented: a raising predicate is False, the connectives are plain logic"""
+    k = b[0]
+    if k == "tt":
+        return True
+    if k == "ff":
+        return False
+    if k == "and":
+        return interp_ref(b[1], v) and interp_ref(b[2], v)
+    if k == "or":
+        return interp_ref(b[1], v) or interp_ref(b[2], v)
+    if k == "not":
+        return not interp_ref(b[1], v)
+    return leaf_ref(b, v) is True
+
+
+def tok_stmt(st):
+    k = st[0]
+    if k == "LB":
+        return ["LB"] + tok_bexp(st[1])
+    if k == "LE":
+        return ["LE"] + tok_eq(st[1])
+    if k == "TB":
+        return ["TB", str(st[1]), str(len(st[2]))] + [tok_val(v) for v in st[2]]
+    if k == "TE":
+        return ["TE", str(st[1]), str(len(st[2]))] + [str(i) for i in st[2]]
+    if k == "Q":
+        a = st[1].split()
+        out = ["Q", a[0], a[1] if len(a) > 1 else "-", str(len(st[2]))]
+        for s in st[2]:
+            out += tok_step(s)
+        return out
+    raise ValueError(st)
+
+
+def prog_line(prog):
+    docs = [str(len(prog["docs"]))]
+    for t in prog["docs"]:
+        docs += tok_tree(t)
+    n_out = [str(len(prog["stmts"]))]
+    for st in prog["stmts"]:
+        n_out += tok_stmt(st)
+    return "prog\t%s\t%s" % (" ".join(docs), " ".join(n_out))
+
+
+class _ProgSink(object):
+    """oracle failures inside a program are reported with the WHOLE program as the replayable case"""
+
+    def __init__(self, chk, prog):
+        self.chk, self.case = chk, {"kind": "prog", "case": prog}
+
+    def failure(self, desc, case=None, finding=None):
+        self.chk.failure(desc, self.case, finding=finding)
+
+    def count(self, *a, **k):
+        self.chk.count(*a, **k)
+
+
+def exec_prog(prog, sink):
+    """run the program on real objects; returns the answers of the TB / TE / Q statements (as the driver prints them)"""
+    tops, ident, _keep = build_entries(prog["docs"])
+    by_nid = dict((ident[id(e)], e) for e in _all_entries(tops))
+    doc = Doc(prog["docs"])
+    env = {"B": [], "E": []}          # the real objects
+    envd = {"B": [], "E": []}         # what each was built as (references expanded)
+    fb, fe = [], []                   # compiled when built
+    snaps = {"B": [], "E": []}
+    first_t = {}
+    outs = []
+
+    def check_structures(after):
+        for kind in ("B", "E"):
+            for i, o in enumerate(env[kind]):
+                if snaps[kind][i] is not None and snap(o) != snaps[kind][i]:
+                    sink.failure("the structure of %s%d changed when it was used as an operand of %s" %
+                                 ("x" if kind == "B" else "e", i, after))
+                    snaps[kind][i] = None       # report once
+
+    for st in prog["stmts"]:
+        k = st[0]
+        try:
+            if k == "LB":
+                o = real_bexp(st[1], bool(st[2]), env)
+                env["B"].append(o)
+                envd["B"].append(expand_b(st[1], envd))
+                fb.append(o.to_pyfunc())
+                snaps["B"].append(snap(o))
+                check_structures("x%d" % (len(env["B"]) - 1))
+            elif k == "LE":
+                o = real_eq(st[1], env)
+                env["E"].append(o)
+                envd["E"].append(expand_eq(st[1], envd))
+                fe.append(o.to_pyfunc())
+                snaps["E"].append(snap(o))
+                check_structures("e%d" % (len(env["E"]) - 1))
+            elif k == "TB":
+                i, o, d = st[1], env["B"][st[1]], envd["B"][st[1]]
+                cells = []
+                now = o.to_pyfunc()
+                for v in st[2]:
+                    t, f0, f1 = bool(o.test(v)), bool(fb[i](v)), bool(now(v))
+                    cells.append(fmt(t) + (fmt(f0) if f0 == f1 else "!"))
+                    strict = strict_ref(d, v)
+                    if non_raising(d, v) and not (t == f0 == f1 == strict):
+                        sink.failure("x%d on %r: test()=%s, compiled when built=%s, compiled now=%s; as built it means %s"
+                                     % (i, v, t, f0, f1, strict))
+                    elif strict == "x" and (f0 or f1):
+                        sink.failure("x%d on %r: a predicate raises, compiled when built=%s, compiled now=%s" % (i, v, f0, f1))
+                    key = (i, repr(v))
+                    if first_t.setdefault(key, t) != t:
+                        sink.failure("x%d on %r: test() was %s when x%d was built and is %s after later combinations were built"
+                                     % (i, v, first_t[key], i, t))
+                outs.append("".join(cells))
+            elif k == "TE":
+                i, o, d = st[1], env["E"][st[1]], envd["E"][st[1]]
+                cells = []
+                now = o.to_pyfunc()
+                for nid in st[2]:
+                    n = by_nid[nid]
+                    t, g0, g1 = bool(o.test(n)), bool(fe[i](n)), bool(now(n))
+                    cells.append(fmt(g0) if t == g0 == g1 else "!")
+                    want = ref_eq(d, doc.by_id[nid])
+                    if not (t == g0 == g1 == want):
+                        sink.failure("e%d on node %d: test()=%s, compiled when built=%s, compiled now=%s; as built it means %s"
+                                     % (i, nid, t, g0, g1, want))
+                outs.append("".join(cells))
+            elif k == "Q":
+                case = {"start": st[1], "docs": prog["docs"], "steps": st[2], "via_find": st[3]}
+                a, plain = run_impl(case, tops, ident, env=env)
+                outs.append(a)
+                oracle_select(sink, dict(case, steps=[expand_step(s, envd) for s in st[2]]), a, plain_ids(plain, ident))
+        except Exception as ex:
+            sink.failure("statement %r raised %s: %s" % (st[0], type(ex).__name__, ex))
+            if k in ("TB", "TE", "Q"):
+                outs.append("exc:" + type(ex).__name__)
+    return ";".join(outs)
+
+
+def gen_leaf(rng, names):
+    k = rng.random()
+    if k < 0.5:
+        return [rng.choice(["p", "pi"]), rng.choice(["eq", "startswith", "contains", "endswith", "le", "ge"]), rng.choice(names)]
+    if k < 0.8:
+        return ["p", rng.choice(OPS), gen_val(rng)]
+    if k < 0.9:
+        return ["o", rng.randrange(3), rng.random() < 0.3]
+    return rng.choice([["tt"], ["ff"]])
+
+
+def gen_bexp_exact(rng, depth, names):
+    """a combination nested to exactly this depth"""
+    if depth <= 0:
+        return gen_leaf(rng, names)
+    if rng.random() < 0.3:
+        return ["not", gen_bexp_exact(rng, depth - 1, names)]
+    a = gen_bexp_exact(rng, depth - 1, names)
+    b = gen_bexp_exact(rng, rng.randint(0, depth - 1), names)
+    if rng.random() < 0.5:
+        a, b = b, a
+    return [rng.choice(["and", "or"]), a, b]
+
+
+def gen_eq_exact(rng, depth, names, nb):
+    """an entry query nested to this depth; attribute queries may be Booleans built before"""
+    def aq():
+        k = rng.random()
+        if nb and k < 0.35:
+            return ["b", ["ref", rng.randrange(nb)]]
+        if k < 0.6:
+            return ["b", gen_leaf(rng, names)]
+        return ["lit", gen_val(rng)]
+
+    def nq():
+        k = rng.random()
+        if nb and k < 0.3:
+            return ["b", ["ref", rng.randrange(nb)]]
+        return ["any"] if k < 0.45 else ["lit", rng.choice(names)]
+    if depth <= 0:
+        k = rng.random()
+        if k < 0.4:
+            return ["anyA", aq()]
+        if k < 0.65:
+            return ["allA", aq()]
+        a = aq() if rng.random() < 0.4 else None
+        return ["child", nq(), None if a == ["lit", None] else a]
+    if rng.random() < 0.3:
+        return ["enot", gen_eq_exact(rng, depth - 1, names, nb)]
+    a = gen_eq_exact(rng, depth - 1, names, nb)
+    b = gen_eq_exact(rng, rng.randint(0, depth - 1), names, nb)
+    if rng.random() < 0.5:
+        a, b = b, a
+    return [rng.choice(["eand", "eor"]), a, b]
+
+
+def gen_history(rng):
+    docs, names = gen_forest(rng, 14)
+    ids = Doc(docs).order
+    vals = [rng.choice(names), rng.choice(names).upper(), rng.choice(STRS), rng.choice(INTS), None, gen_val(rng)]
+    stmts = []
+    nb = [0]
+
+    def let_b(term, nary=False):
+        stmts.append(["LB", term, nary])
+        nb[0] += 1
+        return nb[0] - 1
+
+    def starts():
+        r = rng.random()
+        return "doc %d" % rng.randrange(len(docs)) if r < 0.5 else "res" if r < 0.85 else "node %d" % rng.choice(ids)
+
+    # ---- Booleans
+    b = let_b(gen_bexp_exact(rng, rng.choice([3, 3, 4]), names))
+    stmts.append(["TB", b, vals])
+    c = let_b(gen_bexp_exact(rng, rng.choice([0, 1]), names))
+    d = let_b(gen_bexp_exact(rng, rng.choice([0, 1, 2]), names), rng.random() < 0.3)
+    R = lambda i: ["ref", i]
+    qb = [["qn", ["b", R(b)]], ["qt", ["any"], [["b", R(b)]]], ["qt", ["b", R(b)], [["b", R(c)], ["lit", gen_val(rng)]]]]
+    queries = []
+    for _ in range(3):
+        q = rng.choice(qb)
+        k = rng.random()
+        if k < 0.2:
+            steps = [["G", q]]
+        elif k < 0.6:
+            steps = [["S", rng.random() < 0.6, rng.random() < 0.5, [q]]]
+        else:
+            steps = [["S", rng.random() < 0.6, rng.random() < 0.5, [rng.choice([["qn", ["any"]], q]), q]]]
+        queries.append(["Q", starts(), steps, rng.random() < 0.5])
+    stmts.extend(queries)
+    derived = [["and", R(b), R(c)], ["and", R(c), R(b)], ["or", R(b), R(c)], ["or", R(c), R(b)], ["not", R(b)],
+               ["and", ["and", R(b), R(c)], R(d)], ["or", ["or", R(b), R(c)], R(d)],
+               ["and", R(b), ["not", R(b)]], ["or", ["not", R(c)], R(b)]]
+    rng.shuffle(derived)
+    made = []
+    for t in derived:
+        i = let_b(t, t[0] in ("and", "or") and t[1][0] == t[0] and rng.random() < 0.3)
+        made.append((i, t))
+        stmts.append(["TB", i, vals])
+        if rng.random() < 0.5:
+            stmts.append(["TB", b, vals])
+    # chains continued from DERIVED objects: (b & c) & d, (b | c) | d, d & (c & b), ~(~b)
+    for i, t in list(made):
+        if t[0] in ("and", "or") and t[1][0] == "ref" and rng.random() < 0.7:
+            j = let_b([t[0], R(i), R(d)] if rng.random() < 0.6 else [t[0], R(d), R(i)])
+            stmts.append(["TB", j, vals])
+            stmts.append(["TB", i, vals])
+        elif t[0] == "not" and rng.random() < 0.7:
+            j = let_b(["not", R(i)])
+            stmts.append(["TB", j, vals])
+    for _ in range(rng.randint(1, 3)):
+        x, y = rng.randrange(nb[0]), rng.randrange(nb[0])
+        j = let_b(rng.choice([["and", R(x), R(y)], ["or", R(x), R(y)], ["not", R(x)], ["and", R(x), R(x)]]))
+        stmts.append(["TB", j, vals])
+    for i in range(nb[0]):
+        stmts.append(["TB", i, vals])
+    stmts.extend(queries)
+
+    # ---- entry queries
+    ne = [0]
+
+    def let_e(term):
+        stmts.append(["LE", term])
+        ne[0] += 1
+        return ne[0] - 1
+    E = lambda i: ["eref", i]
+    e = let_e(gen_eq_exact(rng, rng.choice([2, 2, 3]), names, nb[0]))
+    stmts.append(["TE", e, ids])
+    f = let_e(gen_eq_exact(rng, rng.choice([0, 1]), names, nb[0]))
+    g = let_e(gen_eq_exact(rng, rng.choice([0, 1]), names, nb[0]))
+    equeries = []
+    for _ in range(3):
+        k = rng.random()
+        if k < 0.3:
+            steps = [["W", E(e), "obj"]]
+            if rng.random() < 0.5:
+                steps.insert(0, ["S", True, False, [["qn", ["any"]]]])
+        elif k < 0.45:
+            steps = [["G", ["qe", E(e)]]]
+        elif k < 0.75:
+            steps = [["S", rng.random() < 0.6, rng.random() < 0.5, [rng.choice([["qe", E(e)], ["qte", ["any"], E(e)]])]]]
+        else:
+            steps = [["S", rng.random() < 0.6, rng.random() < 0.5, [["qn", ["any"]], ["qe", E(e)]]]]
+        equeries.append(["Q", starts(), steps, rng.random() < 0.5])
+    stmts.extend(equeries)
+    ederived = [["eand", E(e), E(f)], ["eand", E(f), E(e)], ["eor", E(e), E(f)], ["eor", E(f), E(e)], ["enot", E(e)],
+                ["eand", ["eand", E(e), E(f)], E(g)], ["eor", ["eor", E(e), E(f)], E(g)]]
+    rng.shuffle(ederived)
+    emade = []
+    for t in ederived:
+        i = let_e(t)
+        emade.append((i, t))
+        stmts.append(["TE", i, ids])
+        if rng.random() < 0.5:
+            stmts.append(["TE", e, ids])
+    for i, t in list(emade):
+        if t[0] in ("eand", "eor") and t[1][0] == "eref" and rng.random() < 0.7:
+            j = let_e([t[0], E(i), E(g)] if rng.random() < 0.6 else [t[0], E(g), E(i)])
+            stmts.append(["TE", j, ids])
+            stmts.append(["TE", i, ids])
+    for i in range(ne[0]):
+        stmts.append(["TE", i, ids])
+    stmts.extend(equeries)
+    for i in range(nb[0]):          # the Booleans once more, after they were used inside entry queries and selects
+        stmts.append(["TB", i, vals[:3]])
+    return {"docs": docs, "stmts": stmts}
 
 
 # --------------------------------------------------------------------------- run
@@ -810,6 +1238,8 @@ def run(chk):
                 "attributes None/int/str incl. mixed case and non-ASCII) built as real Entry trees, pipelines of 1-2 "
                 "select/find/[] steps started from Entry / Result / the module-level select, 0-4 query levels of "
                 "literals, tuples, None, callables, Boolean algebra, any_/all_/child_query, every (deep, roots); "
+                "programs of ~130 statements that build Booleans / entry queries from earlier ones (shared objects as left/right "
+                "operands, chains, ~) and re-evaluate every binding and its queries after each later binding; "
                 "generated nginx text parsed by NginxConfPEG; boolean expressions of depth <= 4 over all operators x "
                 "None/int/str values; non-trivial = the reference result is non-empty (select) / the expression has a "
                 "predicate (bool) and the case was not seen before" % max_nodes)
@@ -826,7 +1256,11 @@ def run(chk):
         data = json.load(open(os.path.join(CORPUS, fn), encoding="utf-8"))
         c = data["case"]
         chk.witnesses.append(fn)
-        if data["kind"] == "bool":
+        if data["kind"] == "prog":
+            a = exec_prog(c, _ProgSink(chk, c))
+            chk.compare("corpus-history", [c], [a], run_driver("C20", [prog_line(c)]), show=lambda x: {"kind": "prog", "case": x})
+            chk.case(("corpus", fn), True)
+        elif data["kind"] == "bool":
             t, cc = impl_bool(c)
             m = run_driver("C20", [bool_line(c)])[0].split(",")
             chk.compare("corpus-bool", [c], ["%s,%s" % (fmt(t), fmt(cc))], [",".join(m[:2])],
@@ -904,12 +1338,31 @@ def run(chk):
                 chk.count("sel:deep=%d,roots=%d" % (last[1], last[2]))
                 chk.count("sel:levels-%d" % len(last[3]))
             else:
-                chk.count("sel:getitem")
+                chk.count("sel:getitem" if last[0] == "G" else "sel:where")
             chk.count("sel:result-%s" % ("err" if a == "err" else "empty" if a == "-" else "exc" if a.startswith("exc") else "nodes"))
         run_sel_batch(chk, "select/find/getitem", cases, impls)
         if lo == 0:
             for c, i in list(zip(cases, impls))[3:5]:
                 chk.sample({"select": {"start": c["start"], "steps": c["steps"], "nodes": len(Doc(c["docs"]).order)}, "impl": i[0]})
+
+    # ---- stream 2b: histories with shared sub-expressions (combinations are values)
+    n_hist = 250 if quick else 4000
+    for lo in range(0, n_hist, 500):
+        progs, impl = [], []
+        for _ in range(min(500, n_hist - lo)):
+            pr = gen_history(rng)
+            progs.append(pr)
+            impl.append(exec_prog(pr, _ProgSink(chk, pr)))
+            chk.case(hash(case_key(pr)), True)
+            chk.count("history:programs")
+            chk.count("history:statements", len(pr["stmts"]))
+            chk.count("history:bindings", sum(1 for st in pr["stmts"] if st[0] in ("LB", "LE")))
+            chk.count("history:re-evaluations", sum(1 for st in pr["stmts"] if st[0] in ("TB", "TE", "Q")))
+        model = run_driver("C20", [prog_line(pr) for pr in progs])
+        chk.compare("histories:bindings re-evaluated after later combinations", progs, impl, model,
+                    show=lambda pr: {"kind": "prog", "case": pr})
+        if lo == 0 and progs:
+            chk.sample({"history": progs[0]["stmts"][:14], "impl": impl[0][:200]})
 
     # ---- stream 3: parsed nginx documents through ConfigComponent
     from insights.parsers.nginx_conf import NginxConfPEG
@@ -968,7 +1421,7 @@ class _Rec(object):
     def __init__(self):
         self.fails = []
 
-    def failure(self, desc, case, finding=None):
+    def failure(self, desc, case=None, finding=None):
         self.fails.append((desc, finding))
 
     def count(self, *a, **k):
@@ -980,9 +1433,19 @@ def replay(data):
     if isinstance(c, dict) and "kind" in c and "case" in c:
         kind, c = c["kind"], c["case"]
     else:
-        kind = data.get("kind") if data.get("kind") in ("bool", "sel") else ("bool" if "b" in c else "sel")
+        kind = data.get("kind") if data.get("kind") in ("bool", "sel", "prog") else ("bool" if "b" in c else "sel")
     rec = _Rec()
-    if kind == "bool":
+    if kind == "prog":
+        print("replaying program with %d statements" % len(c["stmts"]))
+        for st in c["stmts"]:
+            print("  ", json.dumps(st, ensure_ascii=False)[:200])
+        a = exec_prog(c, rec)
+        m = run_driver("C20", [prog_line(c)])[0]
+        print("impl  ", a)
+        print("model ", m)
+        if a != m:
+            rec.fails.append(("the program's answers differ from the model's", None))
+    elif kind == "bool":
         print("replaying boolean expression", json.dumps(c, ensure_ascii=False))
         t, cc = impl_bool(c)
         m = run_driver("C20", [bool_line(c)])[0]
